@@ -16,6 +16,17 @@ CHECKS = {
             "Trusts Python's os module to create the tree it was asked to create and ext4 on /tmp; sibling order "
             "is don't-care; roots are disjoint; `/` as root not tested.",
             "DESIGN.md 4 C01"),
+    "C10": ("exploration",
+            "property-based testing / grammar-based fuzzing (Hypothesis) of argument vectors with a validity-predicate "
+            "oracle; closed sub-classes enumerated exhaustively",
+            "Generated argvs of five classes (token soups, mutated valid queries, every function with ill-typed "
+            "arguments, ill-typed literals, malformed-by-construction) run on the real binary in a chroot jail: "
+            "must terminate within 10 CPU-seconds with status 0/1/2, never print `panicked at`, give status 2 + "
+            "diagnostic for classes iv/v, and print no row after a `query:` rejection. Finds crashes/hangs in the "
+            "sampled space; cannot prove totality.",
+            "Hang = SIGXCPU after 10 CPU-seconds on a 15-entry tree; interactive mode gets EOF; FIFOs excluded; "
+            "which well-formed-looking soups parse is not asserted.",
+            "DESIGN.md 4 C10"),
 }
 
 PENDING = {}
